@@ -74,7 +74,7 @@ pub fn profile_c17() -> Profile {
     Profile {
         replicas: (1, 2),
         events: (8, 60),
-        mut_classes: vec![FieldExtreme, FieldExtreme, FieldExtreme, DataLeb, SpecMutate, ColumnSplice, BitFlip, Garbage],
+        mut_classes: vec![FieldExtreme, FieldExtreme, FieldExtreme, DataLeb, SpecMutate, ColumnSplice, BitFlip, Garbage, Coherent],
         fix_checksum_permille: 900,
         ..profile()
     }
